@@ -7,6 +7,10 @@
 // the methods of im::HashSet, `Entry` / `entry` / `or_insert`, and the depot-usage vocabulary.  NEW assumptions of this file:
 // im::HashMap::get_mut (A-im) and the uninterpreted `spec_new_fast` (what Transition::new_fast builds).  Everything else is open
 // spec functions and proved lemmas.
+// LAST SECTION: the vocabulary of the contracts of Network::end_depots_sorted_by_distance_from / Schedule::find_best_start_depot_
+// for_spawning / find_best_end_depot_for_despawning, COPIED (text unchanged) from env/depot_choice_shim.vs (which declares UsageMap,
+// sp_spawned, … again and cannot be included), lemma_depot_without_type_limit_suffices from slices/depot_choice.vs, and NEW:
+// Schedule::{improve_progress, dp_room_ok, end_is_nearest}.  No assumption in that section.
 
 // ---- A-im (copied from env/depot_usage_shim.vs): methods of im::HashSet --------------------------------
 impl<T> self::im_set::HashSet<T> {
@@ -936,5 +940,259 @@ pub proof fn lemma_rc_base_same_keys(s: &Schedule, t1: TourMap, t2: TourMap, lis
     assert forall|i: int, j: int| 0 <= i < list.len() && 0 <= j < ids[list[i]]@.len() implies t2.contains_key(#[trigger] ids[#[trigger] list[i]]@[j]) by {
         assert(t1.contains_key(ids[list[i]]@[j]));
         assert(t1.dom().contains(ids[list[i]]@[j]));
+    }
+}
+
+// =====================================================================================================
+// the choice of a depot: vocabulary of the contracts of Network::end_depots_sorted_by_distance_from,
+// Schedule::find_best_start_depot_for_spawning / find_best_end_depot_for_despawning.  TEXT COPIED from
+// env/depot_choice_shim.vs (slice depot_choice verifies the three functions against it), which cannot be included
+// here: it declares UsageMap, sp_spawned, sp_despawned, usage_same_except again (see above) and expects
+// env/admission_shim.vs' im_set.  No assumption: open spec functions and proved lemmas.
+// =====================================================================================================
+// ---- depot admission vocabulary (C02); in env/depot_choice_shim.vs copied from slices/admission.vs ----------------
+impl Depot {
+    /// C02: the number of vehicles of a type that may start at a depot: 0 if the type is not listed,
+    /// the depot's total capacity if it is listed without a limit, the smaller of both otherwise
+    pub open spec fn sp_capacity_for(&self, vt: VehicleTypeIdx) -> VehicleCount {
+        if !self.allowed_types@.contains_key(vt) { 0 }
+        else {
+            match self.allowed_types@[vt] {
+                Some(c) => if c <= self.total_capacity { c } else { self.total_capacity },
+                None => self.total_capacity,
+            }
+        }
+    }
+}
+impl Network {
+    pub open spec fn has_depot(&self, d: DepotIdx) -> bool { self.depots@.contains_key(d) }
+    pub open spec fn sp_depot(&self, d: DepotIdx) -> Depot { self.depots@[d].0 }
+    /// the depot a start / end depot node belongs to (the free function sp_depot_idx_of(net, n) above has the same body)
+    pub open spec fn sp_depot_idx_of(&self, n: NodeIdx) -> DepotIdx {
+        match self.sp_node(n) {
+            Node::StartDepot((_, d)) => d.depot_idx,
+            Node::EndDepot((_, d)) => d.depot_idx,
+            _ => arbitrary(),
+        }
+    }
+}
+/// C02: "the number of vehicles [of a type] starting there"
+pub open spec fn spawned_of_type(du: UsageMap, d: DepotIdx, vt: VehicleTypeIdx) -> nat {
+    if du.contains_key((d, vt)) { du[(d, vt)].0@.len() } else { 0 }
+}
+pub open spec fn spawned_counts(du: UsageMap, d: DepotIdx, types: Seq<VehicleTypeIdx>) -> Seq<int> {
+    types.map_values(|vt: VehicleTypeIdx| spawned_of_type(du, d, vt) as int)
+}
+/// C02: "the number of vehicles starting there": the total over the given vehicle types
+pub open spec fn spawned_total(du: UsageMap, d: DepotIdx, types: Seq<VehicleTypeIdx>) -> int {
+    isum(spawned_counts(du, d, types))
+}
+// ---- the choice of a depot (env/depot_choice_shim.vs) -------------------------------------------------------------
+/// "at most as far as"
+pub open spec fn dist_le(a: Distance, b: Distance) -> bool { denc(a) <= denc(b) }
+impl Network {
+    /// the sort key of Network::start_depots_sorted_by_distance_to: the dead-head distance FROM the node d (its start
+    /// location; for a depot node: the depot's location) TO the given location
+    pub open spec fn dist_to(&self, d: NodeIdx, location: Location) -> Distance {
+        self.locations.sp_distance(self.sp_node(d).sp_start_location(), location)
+    }
+    /// the sort key of Network::end_depots_sorted_by_distance_from: the dead-head distance FROM the given location TO
+    /// the node d (the code reads its START location; for a depot node start and end location are the depot's location)
+    pub open spec fn dist_from(&self, location: Location, d: NodeIdx) -> Distance {
+        self.locations.sp_distance(location, self.sp_node(d).sp_start_location())
+    }
+    /// instance validity (A-index: how Network::new fills the list): the start depot node list holds StartDepot nodes
+    /// of the network whose depot is a depot of the network's depot table
+    pub open spec fn start_depots_ok(&self) -> bool {
+        forall|i: int| 0 <= i < self.start_depot_nodes@.len() ==> self.has(#[trigger] self.start_depot_nodes@[i])
+            && self.sp_node(self.start_depot_nodes@[i]) is StartDepot
+            && self.has_depot(self.sp_depot_idx_of(self.start_depot_nodes@[i]))
+    }
+}
+/// x occurs in `list` before some occurrence of y
+pub open spec fn listed_before(list: Seq<NodeIdx>, x: NodeIdx, y: NodeIdx) -> bool {
+    exists|a: int, b: int| #![trigger list[a], list[b]] 0 <= a < b < list.len() && list[a] == x && list[b] == y
+}
+impl Network {
+    /// the nearest end depot node (ties: the one listed first)
+    pub open spec fn nearest_end_depot(&self, r: NodeIdx, location: Location) -> bool {
+        &&& self.end_depot_nodes@.contains(r)
+        &&& forall|d: NodeIdx| #[trigger] self.end_depot_nodes@.contains(d) ==> dist_le(self.dist_from(location, r), self.dist_from(location, d))
+        &&& forall|d: NodeIdx| #[trigger] self.end_depot_nodes@.contains(d) && d != r && self.dist_from(location, d) == self.dist_from(location, r)
+                ==> listed_before(self.end_depot_nodes@, r, d)
+    }
+}
+impl Network {
+    /// s is in ascending order of the distance from the location
+    pub open spec fn sorted_from(&self, s: Seq<NodeIdx>, location: Location) -> bool {
+        forall|i: int, j: int| #![trigger s[i], s[j]] 0 <= i < j < s.len() ==> dist_le(self.dist_from(location, s[i]), self.dist_from(location, s[j]))
+    }
+    /// the tie-break of a stable sort: equally distant nodes are in the order they have in the end depot node list
+    #[verifier::opaque]
+    pub open spec fn ties_from(&self, s: Seq<NodeIdx>, location: Location) -> bool {
+        forall|i: int, j: int| #![trigger s[i], s[j]] 0 <= i < j < s.len() && self.dist_from(location, s[i]) == self.dist_from(location, s[j])
+            ==> listed_before(self.end_depot_nodes@, s[i], s[j])
+    }
+    /// what Network::end_depots_sorted_by_distance_from(location) returns: the end depot nodes, nearest first
+    pub open spec fn is_end_depots_by_distance(&self, s: Seq<NodeIdx>, location: Location) -> bool {
+        s.to_multiset() == self.end_depot_nodes@.to_multiset() && self.sorted_from(s, location) && self.ties_from(s, location)
+    }
+}
+/// the first node of the end depot nodes sorted by distance is the nearest end depot
+pub proof fn lemma_first_is_nearest(net: &Network, s: Seq<NodeIdx>, location: Location)
+    requires net.is_end_depots_by_distance(s, location),
+    ensures
+        s.len() == net.end_depot_nodes@.len(),
+        s.len() > 0 ==> net.nearest_end_depot(s[0], location),
+{
+    let edn = net.end_depot_nodes@;
+    reveal(Network::ties_from);
+    lemma_perm_members(s, edn);
+    if s.len() > 0 {
+        assert(s.contains(s[0]));
+        assert forall|d: NodeIdx| #[trigger] edn.contains(d) implies dist_le(net.dist_from(location, s[0]), net.dist_from(location, d))
+            && (d != s[0] && net.dist_from(location, d) == net.dist_from(location, s[0]) ==> listed_before(edn, s[0], d)) by {
+            assert(s.contains(d));
+            let m = choose|m: int| 0 <= m < s.len() && s[m] == d;
+            if m > 0 { assert(dist_le(net.dist_from(location, s[0]), net.dist_from(location, s[m]))); }
+        }
+    }
+}
+/// a rearrangement has the same length and the same members
+pub proof fn lemma_perm_members(a: Seq<NodeIdx>, b: Seq<NodeIdx>)
+    requires a.to_multiset() == b.to_multiset(),
+    ensures
+        a.len() == b.len(),
+        forall|x: NodeIdx| #[trigger] a.contains(x) <==> b.contains(x),
+        forall|i: int| 0 <= i < a.len() ==> b.contains(#[trigger] a[i]),
+{
+    a.to_multiset_ensures();
+    b.to_multiset_ensures();
+    assert forall|x: NodeIdx| #[trigger] a.contains(x) <==> b.contains(x) by {
+        assert(a.to_multiset().count(x) == b.to_multiset().count(x));
+        assert(a.contains(x) <==> a.to_multiset().count(x) > 0);
+        assert(b.contains(x) <==> b.to_multiset().count(x) > 0);
+    }
+    assert forall|i: int| 0 <= i < a.len() implies b.contains(#[trigger] a[i]) by {
+        assert(a.contains(a[i]));
+    }
+}
+impl Schedule {
+    /// C02 "no more vehicles start at a depot than its total and per-type capacity": the depot of the start depot node n
+    /// lists the type and has room for one more vehicle of it, per type and in total, w.r.t. the usage table du.  This is
+    /// (verbatim) the value Schedule::can_depot_spawn_vehicle_custom_usage is verified to return (slices/admission.vs)
+    pub open spec fn sp_can_spawn(&self, n: NodeIdx, vehicle_type: VehicleTypeIdx, du: UsageMap) -> bool {
+        let d = self.network.sp_depot_idx_of(n);
+        &&& self.network.sp_depot(d).sp_capacity_for(vehicle_type) > 0
+        &&& spawned_of_type(du, d, vehicle_type) < self.network.sp_depot(d).sp_capacity_for(vehicle_type)
+        &&& spawned_total(du, d, self.network.vehicle_types.ids_sorted@) < self.network.sp_depot(d).total_capacity
+    }
+    /// magnitude (`as VehicleCount` of a set size / the u32 sum over the types): the counts of the table fit u32 for the
+    /// depots of the network's start depot nodes (vehicle ids are 16 bit: a set has at most 2^17 members)
+    pub open spec fn usage_counts_small(&self, vehicle_type: VehicleTypeIdx, du: UsageMap) -> bool {
+        forall|i: int| 0 <= i < self.network.start_depot_nodes@.len() ==> {
+            let d = self.network.sp_depot_idx_of(#[trigger] self.network.start_depot_nodes@[i]);
+            &&& spawned_of_type(du, d, vehicle_type) <= u32::MAX
+            &&& spawned_total(du, d, self.network.vehicle_types.ids_sorted@) <= u32::MAX
+        }
+    }
+    /// C06: some start depot node of the network can spawn a vehicle of the type w.r.t. the table
+    pub open spec fn some_depot_has_room(&self, vehicle_type: VehicleTypeIdx, du: UsageMap) -> bool {
+        exists|i: int| 0 <= i < self.network.start_depot_nodes@.len() && self.sp_can_spawn(#[trigger] self.network.start_depot_nodes@[i], vehicle_type, du)
+    }
+    /// the nearest start depot node with room for one more vehicle of the type w.r.t. the table (ties: the one listed first)
+    pub open spec fn best_start_depot(&self, r: NodeIdx, vehicle_type: VehicleTypeIdx, location: Location, du: UsageMap) -> bool {
+        let sdn = self.network.start_depot_nodes@;
+        &&& sdn.contains(r)
+        &&& self.sp_can_spawn(r, vehicle_type, du)
+        &&& forall|d: NodeIdx| sdn.contains(d) && #[trigger] self.sp_can_spawn(d, vehicle_type, du)
+                ==> dist_le(self.network.dist_to(r, location), self.network.dist_to(d, location))
+        &&& forall|d: NodeIdx| sdn.contains(d) && #[trigger] self.sp_can_spawn(d, vehicle_type, du) && d != r
+                && self.network.dist_to(d, location) == self.network.dist_to(r, location) ==> listed_before(sdn, r, d)
+    }
+}
+// ---- sums: a count is at most the total (in env/depot_choice_shim.vs copied from slices/admission.vs) ---------------
+pub proof fn lemma_isum_bounds_lo(s: Seq<int>)
+    requires forall|i: int| 0 <= i < s.len() ==> 0 <= #[trigger] s[i],
+    ensures 0 <= isum(s),
+    decreases s.len(),
+{
+    if s.len() > 0 {
+        let t = s.drop_last();
+        assert forall|i: int| 0 <= i < t.len() implies 0 <= #[trigger] t[i] by { assert(t[i] == s[i]); }
+        lemma_isum_bounds_lo(t);
+    }
+}
+pub proof fn lemma_isum_nonneg_le(s: Seq<int>, k: int)
+    requires forall|i: int| 0 <= i < s.len() ==> 0 <= #[trigger] s[i], 0 <= k < s.len(),
+    ensures 0 <= s[k] <= isum(s),
+    decreases s.len(),
+{
+    let t = s.drop_last();
+    assert forall|i: int| 0 <= i < t.len() implies 0 <= #[trigger] t[i] by { assert(t[i] == s[i]); }
+    lemma_isum_bounds_lo(t);
+    if k < t.len() {
+        lemma_isum_nonneg_le(t, k);
+        assert(t[k] == s[k]);
+    }
+}
+// ---- C06: how a caller meets some_depot_has_room -- "at least the overflow depot" (text of slices/depot_choice.vs) ------
+/// A start depot node n of the network whose depot lists the type WITHOUT a per-type limit (the overflow depot lists every type
+/// of the network so: slices/network_new.vs, C17.overflow_depot.no_per_type_limit_for_any_type) can spawn a vehicle of the type
+/// as long as fewer vehicles start there in total than its total capacity -- then `expect` cannot panic.
+pub proof fn lemma_depot_without_type_limit_suffices(s: &Schedule, n: NodeIdx, vehicle_type: VehicleTypeIdx, du: UsageMap)
+    requires
+        s.network.start_depot_nodes@.contains(n),
+        // the type is one of the network's types (the total is the sum over them)
+        s.network.vehicle_types.ids_sorted@.contains(vehicle_type),
+        ({
+            let d = s.network.sp_depot_idx_of(n);
+            let dep = s.network.sp_depot(d);
+            &&& dep.allowed_types@.contains_key(vehicle_type) && dep.allowed_types@[vehicle_type] is None
+            &&& spawned_total(du, d, s.network.vehicle_types.ids_sorted@) < dep.total_capacity
+        }),
+    ensures
+        s.sp_can_spawn(n, vehicle_type, du),
+        s.some_depot_has_room(vehicle_type, du), // @obl C06.improve_depots.a_depot_without_type_limit_and_room_in_total_suffices
+{
+    let d = s.network.sp_depot_idx_of(n);
+    let types = s.network.vehicle_types.ids_sorted@;
+    let c = spawned_counts(du, d, types);
+    let k = choose|k: int| 0 <= k < types.len() && types[k] == vehicle_type;
+    lemma_isum_nonneg_le(c, k);
+    assert(c[k] == spawned_of_type(du, d, vehicle_type));
+    let sdn = s.network.start_depot_nodes@;
+    let i = choose|i: int| 0 <= i < sdn.len() && sdn[i] == n;
+    assert(s.sp_can_spawn(sdn[i], vehicle_type, du));
+}
+
+// ---- NEW (not in env/depot_choice_shim.vs): what improve_depots / reassign_end_depots_greedily need of / say about the choice ----
+impl Schedule {
+    /// the tour maps the second loop of improve_depots can have built when it turns to the k-th listed vehicle: the first k
+    /// listed vehicles have their depots replaced, everybody else has the old tour
+    pub open spec fn improve_progress(&self, tours: TourMap, ids: Seq<VehicleIdx>, k: int) -> bool {
+        &&& tours.dom() == self.tours@.dom()
+        &&& forall|j: int| 0 <= j < k ==> depots_replaced(&self.network, &self.tours@[#[trigger] ids[j]], &tours[ids[j]])
+        &&& forall|j: int| k <= j < ids.len() ==> tours[#[trigger] ids[j]] == self.tours@[ids[j]]
+        &&& forall|v: VehicleIdx| !ids.contains(v) ==> #[trigger] tours[v] == self.tours@[v]
+    }
+    /// C06 / C17 (and magnitude) for improve_depots: WHENEVER find_best_start_depot_for_spawning is consulted -- for the k-th
+    /// listed vehicle, with a PARTIAL usage table du (usage_partial: exact for the unlisted vehicles and for the first k listed
+    /// ones at their new depots, without the listed vehicles still to come) -- some start depot node of the network can spawn
+    /// the vehicle's type w.r.t. du ("There should be at least the overflow depot available."; `expect` panics otherwise), and
+    /// the counts of du fit u32.  Quantified over every table / tour map that can arise, because which depots the earlier
+    /// vehicles got depends on the distances.  lemma_depot_without_type_limit_suffices: a start depot node whose depot lists
+    /// the type without per-type limit (the overflow depot: slices/network_new.vs, C17) and where, according to du, fewer
+    /// vehicles start in total than its total capacity suffices for some_depot_has_room.
+    pub open spec fn dp_room_ok(&self, ids: Seq<VehicleIdx>) -> bool {
+        forall|du: UsageMap, tours: TourMap, k: int| #![trigger self.usage_partial(du, tours, ids, k)]
+            0 <= k < ids.len() && self.improve_progress(tours, ids, k) && self.usage_partial(du, tours, ids, k)
+            ==> self.usage_counts_small(self.type_of(ids[k]), du) && self.some_depot_has_room(self.type_of(ids[k]), du)
+    }
+    /// C13 (reassign_end_depots_greedily): the end depot node of t is the end depot node of the network that is nearest to the
+    /// end location of the last activity of v's tour (dead-head distance; ties: the one listed first; capacities ignored)
+    pub open spec fn end_is_nearest(&self, v: VehicleIdx, t: Tour) -> bool {
+        let o = self.tours@[v];
+        self.network.nearest_end_depot(sp_end_depot(&t), self.network.sp_node(o.nodes@[o.nodes@.len() - 2]).sp_end_location())
     }
 }
